@@ -569,10 +569,18 @@ def run_instance(inst, max_exec=200000, bound=None, want=("C04", "C05", "C06", "
 
     t_start = _time.time()
     timed_out = False
-    for rng, (status, payload) in explore(run, bound=bound, max_exec=max_exec, menu=inst.menu):
+    history_dependent = False
+    for rng, (status, payload) in explore(run, bound=bound, max_exec=max_exec, menu=inst.menu, divergence="yield" if reuse else "raise"):
         if max_seconds is not None and _time.time() - t_start > max_seconds:
             timed_out = True  # budget of this instance used up: reported as capped (not exhaustive), never as a verdict
             break
+        if rng.diverged:
+            # one parsed object generates every execution: given the answers of an earlier execution it now asks other
+            # questions - its decisions are not a function of the notation and the answers alone
+            history_dependent = True
+            if "C08" in want:
+                viols.setdefault(f"C08|decisions-depend-on-earlier-generations-of-the-object|{inst.family}", (f"{shown}: the SAME parsed object generating again: after the answers {rng.script} (which an earlier generation of this object had received up to the last one) it asks {len(rng.points)} question(s) instead of at least {len(rng.script)}: the decisions offered depend on the object's earlier generations", list(rng.script)))
+            continue
         stats["execs"] += 1
         stats["points"] += len(rng.points)
         stats["maxdepth"] = max(stats["maxdepth"], len(rng.points))
@@ -616,7 +624,7 @@ def run_instance(inst, max_exec=200000, bound=None, want=("C04", "C05", "C06", "
         for (prop, code, what) in per:
             if prop in want:
                 viols.setdefault(f"{prop}|{code}|{inst.family}", (f"{shown}: {what}", script))
-    stats["capped"] = bool(explore.capped) or timed_out
+    stats["capped"] = bool(explore.capped) or timed_out or history_dependent
     # what is fully covered below a cap: every execution with at most this many deviations from the default answers
     stats["completed_deviation_bound"] = (explore.current_bound - 1) if timed_out else explore.completed_bound if explore.capped else None
     stats["outcomes"] = len(dist)
